@@ -101,7 +101,7 @@ def sparse_atoms(atoms):
     return keep
 
 
-def derivative_cases(model, tier, include_undefined_children, routes):
+def derivative_cases(model, tier, include_undefined_children, routes, retain=False):
     """-> list of (tree, label, val, var, routes_for_case)"""
     atoms = partition(model, tier)
     coarse = partition(model, "quick")
@@ -112,6 +112,11 @@ def derivative_cases(model, tier, include_undefined_children, routes):
     inst += [(t, l, False) for (t, l) in constant_child_instances(model, tier)]
     wide = [(t, l) for (t, l) in inspected_child_instances(model, tier) if "<same" not in l] + \
         wide_nary_instances(model, tier)
+    if retain:
+        # the derivative with respect to a separate factor RETAINS the instance as a sub-expression of the
+        # returned expression, which as_expression() then simplifies: every shape a rewrite rule keys on
+        keep = ("Variable", "kept_factor")
+        wide += [(("Multiply", [keep, t]), f"retained:{l}") for (t, l) in wide if "<same" not in l]
     if include_undefined_children:
         from .simpengine import variable_free_inputs
         wide += [(t, "variable-free:" + l) for (t, l) in variable_free_inputs(model) if not spec.variables(t)]
@@ -151,7 +156,7 @@ def run_derivative_property(rep, prop, routes, expr_routes, judge_mode, explanat
                             include_undefined_children=False):
     model = load_model()
     tier = rep.tier
-    cases, unknown = derivative_cases(model, tier, include_undefined_children, routes)
+    cases, unknown = derivative_cases(model, tier, include_undefined_children, routes, retain=(judge_mode == "expr"))
     need_value = judge_mode in ("value", "expr")
     groups = {}
     for idx, (t, l, v, var, rts) in enumerate(cases):
@@ -195,6 +200,11 @@ def run_derivative_property(rep, prop, routes, expr_routes, judge_mode, explanat
                     msg = (f"{desc}; computed {r.get('got')} which differs from the true partial, e.g. at "
                            f"{r['witness']['at']}: code {r['witness']['values'][0]:.6g} vs true "
                            f"{r['witness']['values'][1]:.6g}")
+                elif judge_mode == "value" and st == "spurious-raise":
+                    # the property promises the true partial at every point of the domain: an exception there
+                    # (of whatever type) is not that number
+                    is_bad = True
+                    msg = f"{desc}; raised {r.get('exc')}" + (f" at {where}" if where else "") + " instead of returning it"
                 elif judge_mode == "raise" and st in RAISE_BAD:
                     is_bad = True
                     msg = f"{desc}; got {r.get('exc') or r.get('got')}" + (f" raised at {where}" if where else "")
